@@ -54,6 +54,9 @@ func cmdRun(args []string) {
 	conc := fs.String("concrete", "", "semicolon-separated witness: run the interpreter concretely")
 	guide := fs.String("guide", "", "semicolon-separated witness: follow its path symbolically")
 	traceif := fs.String("traceif", "", "write every If decision to this file")
+	sites := fs.String("sites", "", "comma-separated site predicates to assume (known findings excused)")
+	excuses := fs.String("excuse", "", "comma-separated vKnown keys to excuse")
+	summ := fs.String("summaries", "", "comma-separated function summaries")
 	argstr := fs.String("args", "", "comma-separated int64 harness arguments")
 	fs.Parse(args)
 	w, err := exec.Load(*repo, *hdir)
@@ -79,6 +82,18 @@ func cmdRun(args []string) {
 	}
 	if *conc != "" {
 		cfg.ConcreteWitness = strings.Split(*conc, ";")
+	}
+	if *sites != "" {
+		cfg.SiteAssume = exec.SiteAssumeFor(strings.Split(*sites, ","))
+	}
+	if *summ != "" {
+		cfg.Summaries = exec.SummariesFor(strings.Split(*summ, ","))
+	}
+	cfg.Excuse = map[string]bool{}
+	for _, e := range strings.Split(*excuses, ",") {
+		if e != "" {
+			cfg.Excuse[e] = true
+		}
 	}
 	if *guide != "" {
 		cfg.Guide = strings.Split(*guide, ";")
